@@ -32,7 +32,7 @@ def main(tier, args):
     stretch = min(4.0, max(1.0, os.getloadavg()[0] / (os.cpu_count() or 16)))
     dl = int(os.environ.get("C12_DEADLINE_S", (55 * stretch) if quick else 1000))
     jobs = []
-    # all processes start together (run_procs jobs=30), so the one (relative) deadline bounds the wall time; the fork-bound pipeline lanes come first.
+    # all processes start together (run_procs jobs=36), so the one (relative) deadline bounds the wall time; the fork-bound pipeline lanes come first.
     # (2) pipeline half, engine H, fork per evaluation.  <=requests per configuration: quick 3/3/3, thorough 4/3/4
     depth = 6 if quick else 8
     mr = {"unix-epoll": 3 if quick else 4, "unix-select": 3, "tcp-epoll": 3 if quick else 4}
@@ -51,6 +51,9 @@ def main(tier, args):
         jobs.append(("pipe:unix-epoll-%s-grouping-locale" % lane, [pipe, "unix", "epoll", "4" if quick else "5", "3", lane], {"C12_GROUPING_LOCALE": "1"}))
     for tr, eng in (("unix", "epoll"), ("tcp", "epoll")):      # hostile Content-Length values against the real server (small: the lane reaches its fixpoint at depth 4)
         jobs.append(("pipe:%s-%s-hcl" % (tr, eng), [pipe, tr, eng, "4" if quick else "5", "3", "hcl"]))
+    # where the segment boundary falls relative to the BODY (all three back-end/transport pairs; small: correct code merges the states again)
+    for tr, eng in (("unix", "epoll"), ("unix", "select"), ("tcp", "epoll")):
+        jobs.append(("pipe:%s-%s-bodycut" % (tr, eng), [pipe, tr, eng, "5" if quick else "6", "3", "bodycut"]))
     # (1) parser half, engine I
     nsplit, nbytes, nmut = 8, 3, 4
     for s in range(nsplit):
@@ -63,7 +66,7 @@ def main(tier, args):
         jobs = [j for j in jobs if j[0] == args.only or j[0].split(":")[0] == args.only]
     os.makedirs(vf.BUILD + "/C12/sock", exist_ok=True)
     env = {"VERIF_DEADLINE_S": str(dl), "VERIF_WORKERS": "6", "C12_SOCK_DIR": vf.BUILD + "/C12/sock"}
-    vf.run_procs(res, jobs, env=env, log=log, jobs=30)
+    vf.run_procs(res, jobs, env=env, log=log, jobs=36)
     for f in glob.glob(vf.BUILD + "/C12/sock/c12-*.sock"):      # left behind by children that died (crash = reported violation)
         try: os.unlink(f)
         except OSError: pass
@@ -100,7 +103,8 @@ def main(tier, args):
         "completing the contexts of both connections from inside its callback; also on loopback TCP; per-connection oracle incl. 'response written to another connection'; context log on); mw (two callbacks: the first "
         "defers next() by 0|1|2 passes, the second - registered through use(Middleware*) - answers in its callback or 1 pass later; context log on); resp (response variants: Content-Type + X-Tag headers | X-Tag and an empty body | response left untouched = 404 without body or tag; delays 0|1; alone|glued); "
         "life (unix and tcp: stop()+start() and cleanup()+initialize()+use()+start() with connections open and handlers outstanding - <=2 restarts, every client reconnects, old contexts complete "
-        "afterwards - and a terminal cleanup() with live connections whose contexts are released only after it); hcl (unix and tcp: after 0-2 valid requests one request "
+        "afterwards - and a terminal cleanup() with live connections whose contexts are released only after it); bodycut (unix/epoll, unix/select, tcp/epoll: requests with body length 0|1|2|5, keep-alive (handler delay 0|1) or closing, sent with the cut right after the blank line | before the "
+        "LAST body byte | byte by byte (a pass after every byte), as the last bytes on the connection (followed only by passes) or in front of further requests; full oracle); hcl (unix and tcp: after 0-2 valid requests one request "
         "with one of {NHCL} hostile Content-Length values - negative incl. exactly -(size of its own head) and +-1/+5 around it, signed, zero-padded, blank, empty, around 2^31/2^32/2^63/2^64 - in one segment or "
         "cut in two, then optionally a valid request: judged by crash/hang freedom and the stream rules; watchdog = a loop pass that enters the handler >40 times is reported with its history, a busy pass "
         "without handler calls by the 15 s CPU-time watchdog). "
